@@ -256,6 +256,11 @@ def step (op : String) (gs : List (List Int)) : String :=
       ((e.getD 0 0).toNat, if e.getD 1 0 < 0 then none else some (e.getD 1 0, e.getD 2 0))
     let s := poissonRun (guard != 0) nx.toNat ny.toNat den r s0 evs
     okG [bits s.mask, [Int.ofNat s.actives.length, b2i (poissonOverrun nx.toNat ny.toNat s)]]
+  | "call_uniform", [[gid]] =>
+    -- `uniform_range=True`: `choose_acceleration` raises NotImplementedError wherever the option is accepted
+    match genOf gid with
+    | some g => if g.accepts.2.1 then "err NotImplementedError" else "ok"
+    | none => "err BadOp"
   | "build", [[gid, mi]] =>
     match genOf gid, modeOf mi with
     | some g, some m =>
